@@ -263,7 +263,7 @@ fn judge_case(c: &CCase) -> Verdict {
         }
         true
     };
-    match c.scenario % 4 {
+    match c.scenario % 5 {
         2 => {
             // a single participant alone is not swallowed: its own action, exactly once
             let only = [keys[0]];
@@ -297,9 +297,61 @@ fn judge_case(c: &CCase) -> Verdict {
             v.classes.push("disabled-layer");
             return v;
         }
+        4 if k >= 2 => {
+            // an interrupted partial chord: all keys but the last (not a chord, containing no
+            // chord), then a non-chord key and, in the same millisecond, the last key: every key
+            // is delivered to the layer exactly once, in the original order
+            let part: u8 = keys[..k - 1].iter().fold(0u8, |m, i| m | (1 << i));
+            let contains_chord = c.chords.iter().any(|o| o.keys & part == o.keys && (o.keys.count_ones() >= 2));
+            if contains_chord {
+                return Verdict::discard("partial-chord-contains-a-chord");
+            }
+            let mut sim = match Sim::new(&text) {
+                Ok(s) => s,
+                Err(e) => return Verdict::failed("harness:chord-config-rejected", e),
+            };
+            for i in &keys[..k - 1] {
+                sim.press(code_of(PART[*i]));
+                sim.tick_n(1);
+            }
+            sim.press(code_of("e"));
+            sim.press(code_of(PART[keys[k - 1]]));
+            sim.tick_n(max_tmo(c) + 30);
+            for i in &keys {
+                sim.release(code_of(PART[*i]));
+                sim.tick_n(2);
+            }
+            sim.release(code_of("e"));
+            sim.tick_n(max_tmo(c) + 40);
+            let downs: Vec<u16> = sim.outs.iter().filter_map(|o| if let OutEv::Down(kc) = o.ev { Some(kc) } else { None }).collect();
+            let mut want: Vec<u16> = keys[..k - 1].iter().map(|i| single_outs[*i]).collect();
+            want.push(code_of("w"));
+            want.push(single_outs[keys[k - 1]]);
+            if downs != want {
+                return Verdict::failed(
+                    "chord:interrupted-partial-chord-not-delivered-in-order",
+                    format!(
+                        "{text}keys {} then e and {} in the same ms: output {}\nexpected the presses {:?}",
+                        keys[..k - 1].iter().map(|i| PART[*i]).collect::<Vec<_>>().join(" "),
+                        PART[keys[k - 1]],
+                        fmt_outs(&sim.outs),
+                        want.iter().map(|c| out_name(*c)).collect::<Vec<_>>()
+                    ),
+                );
+            }
+            let mut os = OsState::default();
+            for o in &sim.outs {
+                os.apply(o);
+            }
+            if os.anything_down() {
+                return Verdict::failed("chord:key-left-down", format!("{text}interrupted partial chord: {}", fmt_outs(&sim.outs)));
+            }
+            v.classes.push("interrupted-partial-chord");
+            return v;
+        }
         _ => {}
     }
-    let extra = c.scenario % 4 == 1;
+    let extra = c.scenario % 5 == 1;
     // reference run: sorted press order
     let sorted: Vec<usize> = (0..k).collect();
     let base = match run(c, &keys, &sorted, &gaps, &rel_order, extra, false) {
@@ -454,7 +506,7 @@ impl TypedProp for C09 {
     fn info(&self) -> PropInfo {
         PropInfo {
             level: "exploration",
-            rule: "tables: defchords (v1) and defchordsv2 (v2) with 1-6 chords over participating keys a-d (overlapping chords, sub-chords, supersets, v2: both release behaviours, disabled layer), timeouts {8,30}, every chord action a distinct key. For one chord of the table: all its keys pressed with total span well below / T-2 / T+3, then released in a chosen order, optionally followed by a non-chord key. Oracles: (reference) within the timeout the chord's action appears exactly once and nothing else of the participants, the following key is not swallowed and comes after it, the action is released per the release rule and no later than the last participant; beyond the timeout the whole chord does not fire and keys are not swallowed; a single participant alone gives its own action once; on its disabled layer a v2 chord does not fire; (metamorphic, exhaustive over orders) every permutation of the press order gives the same timestamped OS transitions as the sorted order (v1: the same timestamped presses), nothing is left down. Non-trivial: the table contains a sub- or super-chord of the exercised chord. Distinct: hash of the case.",
+            rule: "tables: defchords (v1) and defchordsv2 (v2) with 1-6 chords over participating keys a-d (overlapping chords, sub-chords, supersets, v2: both release behaviours, disabled layer), timeouts {8,30}, every chord action a distinct key. For one chord of the table: all its keys pressed with total span well below / T-2 / T+3, then released in a chosen order, optionally followed by a non-chord key. Oracles: (reference) within the timeout the chord's action appears exactly once and nothing else of the participants, the following key is not swallowed and comes after it, the action is released per the release rule and no later than the last participant; beyond the timeout the whole chord does not fire and keys are not swallowed; a single participant alone gives its own action once; all keys of the chord but the last (containing no chord), then a non-chord key and the last key in the same millisecond => every key's own action exactly once in the original order; on its disabled layer a v2 chord does not fire; (metamorphic, exhaustive over orders) every permutation of the press order gives the same timestamped OS transitions as the sorted order (v1: the same timestamped presses), nothing is left down. Non-trivial: the table contains a sub- or super-chord of the exercised chord. Distinct: hash of the case.",
             assumptions: vec!["spans within 2 ms of the timeout are only checked metamorphically (the exact boundary convention differs between v1 and v2)".into()],
             extra: BTreeMap::new(),
         }
@@ -467,7 +519,7 @@ impl TypedProp for C09 {
             },
             exhaustive: false,
             distinct_by_construction: false,
-            required_classes: vec!["v1", "v2", "released-before-timeout", "outlasts-shorter-overlapping-chord", "within-timeout", "beyond-timeout", "permuted", "with-following-key", "overlapping-table", "single-participant", "disabled-layer"],
+            required_classes: vec!["v1", "v2", "released-before-timeout", "outlasts-shorter-overlapping-chord", "within-timeout", "beyond-timeout", "permuted", "with-following-key", "overlapping-table", "single-participant", "disabled-layer", "interrupted-partial-chord"],
             hang_secs: 60,
         }
     }
@@ -482,7 +534,7 @@ impl TypedProp for C09 {
             any::<u16>(),
             0u8..3,
             any::<u16>(),
-            0u8..4,
+            0u8..5,
             prop_oneof![2 => Just(vec![]), 3 => prop::collection::vec(prop::sample::select(vec![8u16, 30, 60]), 6..=6)],
             prop::bool::weighted(0.3),
         )
